@@ -121,6 +121,8 @@ SUITE_ARGS = {
     "bytes": ["bytes"],
     "emplace": ["emplace"],
     "ops": ["ops"],
+    "io": ["io"],
+    "aio": ["aio"],
 }
 
 def run_suite(name, tier, seed, fp):
@@ -555,6 +557,130 @@ def oracle_C14(lhs, o, t):
             return f"bytes after the value's own {p['v']} bytes changed"
     return None
 
+# ---- IO suites (S R AS AR AP W lines) ---------------------------------------------------------------------
+def parse_io(r):
+    d = {"cls": "io"}
+    if r == "":
+        d["cls"] = "MEMFAULT"; return d
+    toks = r.split(" ")
+    d["outs"] = toks[0].split(",") if toks[0] not in ("-", "") else []
+    for tok in toks[1:]:
+        if "=" in tok:
+            k, v = tok.split("=", 1); d[k] = v
+    if toks[0].startswith("sent="):
+        d["outs"] = (d.get("got") or "-").split(",") if d.get("got") not in (None, "-") else []
+    if r.startswith("PANIC"):
+        d["cls"] = "PANIC"
+    return d
+def io_fields(lhs):
+    f = lhs.split(" ")
+    return dict(kind=f[0], tid=int(f[1]), max=int(f[2]), script=f[3], rest=f[4:])
+def faulty(script):
+    return any(x in ("f", "z") for x in script.split(","))
+def norm_io(o, om):
+    """sink compared with the model's padding mask"""
+    if "sink" in o and "sink" in om and eq_masked(o["sink"], om["sink"]):
+        o = dict(o); o["sink_raw"] = o["sink"]; o["sink"] = om["sink"]
+    return o
+def proj_io_all(lhs, o, t):
+    return (tuple(o.get("outs", [])), o.get("sink"), o.get("calls"), o.get("reads"), o.get("sent"), o.get("done"), o.get("flushed"))
+def proj_C07(lhs, o, t):
+    f = io_fields(lhs)
+    return proj_io_all(lhs, o, t) if f["kind"] in ("S", "R") and not faulty(f["script"]) else ()
+def proj_C08(lhs, o, t):
+    f = io_fields(lhs)
+    if f["kind"] == "AP": return (tuple(o.get("outs", [])), o.get("sent"), o.get("done"), o.get("panic"))
+    return proj_io_all(lhs, o, t) if f["kind"] in ("AS", "AR") and not faulty(f["script"]) else ()
+def proj_C09(lhs, o, t):
+    f = io_fields(lhs)
+    return proj_io_all(lhs, o, t) if f["kind"] in ("S", "R", "AS", "AR") and faulty(f["script"]) else ()
+def proj_C10(lhs, o, t):
+    f = io_fields(lhs)
+    return (tuple(o.get("outs", [])), o.get("reads")) if f["kind"] in ("R", "AR") else ()
+def oracle_io_basic(lhs, o, t):
+    if o["cls"] in ("PANIC", "MEMFAULT"): return f"the harness case ended with {o['cls']} (call budget exhausted = the call never returns)"
+    return None
+def post_io(props_kind):
+    """block oracles: a block = the lines up to a `W` line, which carries the sent sequence (sizes and contents)"""
+    def post(cases):
+        out, block = [], []
+        for c in cases:
+            (sname, lhs, rhs, mo, o, t) = c
+            if lhs.startswith("W "):
+                want = rhs.split(",") if rhs not in ("", "-") else []
+                stream = lhs.split(" ")[3]
+                sizes = [int(w.split(":")[1]) for w in want]
+                for (sn, l, r, m, oo, tt) in block:
+                    w = check_io_line(props_kind, l, oo, want, sizes, stream)
+                    if w: out.append((sn, l, r, m, w))
+                block = []
+            else:
+                block.append(c)
+        return out
+    return post
+def check_io_line(kind, lhs, o, want, sizes, stream):
+    f = io_fields(lhs)
+    k, script = f["kind"], f["script"]
+    outs = o.get("outs", [])
+    nscript = 0 if script == "-" else len(script.split(","))
+    if k in ("S", "AS"):
+        sink = o.get("sink_raw", o.get("sink", "-"))
+        n = 0 if sink == "-" else len(sink) // 2
+        if int(o.get("calls", 0)) > nscript + len(sizes) * 3 + sum(sizes) + 8: return f"{o.get('calls')} pipe calls for {sum(sizes)} bytes and a script of {nscript}: retry loop"
+        if not faulty(script):
+            if kind in ("C07", "C08"):
+                if outs != ["ok"] * len(sizes): return f"send results {outs} without any pipe fault"
+                if n != sum(sizes): return f"sink holds {n} bytes, the messages have {sum(sizes)}"
+                if k == "AS" and o.get("flushed") != "1": return "a send completed without a successful flush after its last byte"
+        elif kind == "C09":
+            # whole messages followed by at most one partial message, nothing after it.  A send that reported an error may have
+            # handed over nothing, a proper prefix (then nothing may follow), or — async only, when the flush failed — everything.
+            acc = sum(sizes[i] for i, r in enumerate(outs) if r == "ok")
+            errs = [i for i, r in enumerate(outs) if r.startswith("err")]
+            if n < acc: return f"sink holds {n} bytes but {acc} bytes of completed messages were reported"
+            E = n - acc
+            import itertools
+            okshape = False
+            for mask in itertools.product([0, 1], repeat=len(errs)):
+                full = [e for e, m in zip(errs, mask) if m]
+                if full and k != "AS": continue
+                rest_ = E - sum(sizes[e] for e in full)
+                if rest_ == 0: okshape = True; break
+                for e in errs:
+                    if e in full: continue
+                    if 0 < rest_ < sizes[e] and not any(r == "ok" for r in outs[e + 1:]) and not any(x > e for x in full):
+                        okshape = True
+                if okshape: break
+            if not okshape: return f"sink ({n} bytes) is not whole messages followed by at most one partial message with nothing after it: results {outs}, sizes {sizes}"
+            if any(r == "STUCK" for r in outs): return "a send future was never woken again"
+            # every failing pipe outcome the sender consumed surfaced as an error (it is not swallowed and retried)
+            ent = script.split(",")[: int(o.get("calls", 0))]
+            nfault = sum(1 for x in ent if x == "f" or (x == "z" and k == "S"))
+            nerr = sum(1 for r in outs if r.startswith("err"))
+            if k == "S" and nerr != nfault: return f"{nfault} failing pipe outcome(s) were consumed but {nerr} send(s) reported an error: {outs}"
+            if k == "AS" and nerr < nfault: return f"{nfault} failing pipe outcome(s) were consumed but only {nerr} send(s) reported an error: {outs}"
+        return None
+    if k in ("R", "AR"):
+        if any(x in ("PANIC", "STUCK", "BLOCKED") for x in outs): return f"recv: {[x for x in outs if x in ('PANIC', 'STUCK', 'BLOCKED')][0]}"
+        hexlen_stream = 0 if f["rest"][1] == "-" else len(f["rest"][1]) // 2
+        if int(o.get("reads", 0)) > nscript + hexlen_stream + int(f["rest"][0]) + 8: return f"{o.get('reads')} reads: the receiver spins"
+        if f["rest"][1] == stream:
+            msgs = [x for x in outs if x != "read"]
+            if not faulty(script):
+                if kind in ("C07", "C08") and msgs != want + ["closed"]: return f"received {msgs}, sent {want}"
+            elif kind == "C09":
+                # a prefix of what was sent (every message at most once, in order), then Closed / nothing more
+                body = [x for x in msgs if x.startswith("msg")]
+                if body != want[:len(body)]: return f"after pipe faults received {body}, sent {want}: loss, duplication or reordering"
+                if "z" not in script.split(",") and msgs and msgs[-1] == "closed" and len(body) != len(want): return f"Closed after {len(body)} of {len(want)} messages although the stream did not end"
+        return None
+    if k == "AP" and kind == "C08":
+        if o.get("panic") != "0": return "panic in the sender or receiver task"
+        if o.get("done") != "11": return f"tasks not complete (done={o.get('done')}): lost wake-up or deadlock"
+        if [x.split(":", 2)[2] if x.startswith("msg") else x for x in outs] != [w.split(":", 2)[2] for w in want] + ["closed"]: return f"received {outs}, sent {want}"
+        return None
+    return None
+
 PROPS = {
     "C01": dict(module="FV.Props.C01", theorems=["FV.Props.C01_validate_total", "FV.Props.C01_from_bytes_total"], suites=["bytes"], proj=proj_C01, oracle=oracle_C01),
     "C02": dict(module="FV.Props.C02", theorems=["FV.Props.C02_view_within", "FV.Props.C02_truncation_validates"], suites=["bytes"], proj=proj_C02, oracle=oracle_C02),
@@ -568,6 +694,10 @@ PROPS = {
     "C12": dict(module="FV.Props.C12", theorems=["FV.Props.C12_truncate_beyond_noop_partial", "FV.Props.C12_pop_empty_partial"], suites=["ops"], proj=proj_C12, oracle=oracle_C12),
     "C13": dict(module="FV.Props.C13", theorems=["FV.Props.C13_vec_refused_unchanged"], suites=["ops"], proj=proj_C13, oracle=oracle_C13),
     "C14": dict(module="FV.Props.C14", theorems=["FV.Props.C14_write_frame", "FV.Props.C14_item_edit_frame"], suites=["emplace", "ops"], proj=proj_C14, oracle=oracle_C14),
+    "C07": dict(module="FV.Props.C07", theorems=["FV.Props.C07_sender_delivers", "FV.Props.C07_receiver_delivers"], suites=["io"], proj=proj_C07, oracle=oracle_io_basic, post=post_io("C07")),
+    "C08": dict(module="FV.Props.C08", theorems=["FV.Props.C08_sender_refines_blocking"], suites=["aio"], proj=proj_C08, oracle=oracle_io_basic, post=post_io("C08")),
+    "C09": dict(module="FV.Props.C09", theorems=["FV.Props.C09_send_fault"], suites=["io", "aio"], proj=proj_C09, oracle=oracle_io_basic, post=post_io("C09")),
+    "C10": dict(module="FV.Props.C10", theorems=["FV.Props.C10_recv_never_faults"], suites=["io", "aio"], proj=proj_C10, oracle=oracle_io_basic, post=post_io("C10")),
     "C06": dict(module="FV.Props.C06", theorems=["FV.Props.C06_prefix_insufficient", "FV.Props.C06_extension_same"], suites=["bytes"], proj=proj_C06, oracle=oracle_C06),
 }
 
@@ -621,7 +751,7 @@ def lean_obligations(prop, cfg, thorough):
 # ------------------------------------------------------------------------------------------------
 # known findings
 # ------------------------------------------------------------------------------------------------
-SUITE_PARSE = {"bytes": parse_rhs, "emplace": parse_emp, "ops": parse_emp}
+SUITE_PARSE = {"bytes": parse_rhs, "emplace": parse_emp, "ops": parse_emp, "io": parse_io, "aio": parse_io}
 
 def load_known():
     p = os.path.join(VERIF, "known_findings.json")
@@ -683,6 +813,8 @@ def check_property(prop, tier, seed):
                 t = types[tid]
                 parse = SUITE_PARSE[sname]
                 oi, om = parse(rhs), parse(mo)
+                if "sink" in oi:
+                    oi = norm_io(oi, om)
                 if "after" in oi and "after" in om and eq_masked(oi["after"], om["after"]):
                     oi["after_raw"] = oi["after"]; oi["after"] = om["after"]
                 stats["cases"] += 1
